@@ -55,6 +55,10 @@ def opsC17Addr : List (String × Handler) := [
       | none => "bad-op"
     | _ => "bad-op"),
   ("addr.from_b64", strOp fun s => outAcct (fromBase64Url s)),
+  ("addr.root_parse", strOp fun s => match parseAddress s with
+    | .ok (a, b) => s!"ok {a.wc.toInt} {outBV a.addr} {if b then 1 else 0}"
+    | .err _ => "err"
+    | .panic _ => "panic"),
   ("addr.parse", strOp fun s => outAcct (parseAccountID s)),
   ("addr.json", acctOp fun id => "ok " ++ outBV (toJSON id)),
   ("addr.from_json", strOp fun s => outAcct (fromJSON s)),
